@@ -33,6 +33,10 @@ type c18Job struct {
 	Path string // "check" | "deliver"
 	Deep bool   `json:",omitempty"` // thorough tier: the menu also holds every PAIR of hostile leaves (reduced value sets)
 	Gov  string `json:",omitempty"` // phase "governance options": "key:value" installed before the target block ("?" = list the keys)
+	// phase "governance options": run the history in the variant of its world whose staking, evidence and proposal
+	// options lie inside the ranges the governance rules demand (the rules validate the whole option set, so in
+	// the scaled-down worlds no member of those sets can be changed at all)
+	Legal bool `json:",omitempty"`
 }
 
 type c18Res struct {
